@@ -234,17 +234,19 @@ def job_exact_restore(nfr):
 
 
 def job_times(nfr, T):
-    """overwrite_times -> slew_times == t_slew; consolidate = row-wise concatenation with absolute times"""
+    """overwrite_times -> slew_times == t_slew; consolidate = row-wise concatenation with absolute times.
+    T: one integration count for all frames, or a tuple with one count per frame (frames of a cadence may differ in length)"""
     recs = []
     Fc = 3
+    Ts = tuple(T) if isinstance(T, (tuple, list)) else (T,) * nfr
     df, dt, fch1, pre = geom_syms()
     taus = [Sym(z3.Real(f'tau{m}')) for m in range(nfr)]
     slew = Sym(z3.Real('t_slew'))
-    Ds = [sym_data(T, Fc, f'D{m}_') for m in range(nfr)]
+    Ds = [sym_data(Ts[m], Fc, f'D{m}_') for m in range(nfr)]
     tag = f"C16:times:{(nfr, T)}"
 
     def run():
-        frames = [make_frame(T, Fc, True, df, dt, fch1, t_start=taus[m]) for m in range(nfr)]
+        frames = [make_frame(Ts[m], Fc, True, df, dt, fch1, t_start=taus[m]) for m in range(nfr)]
         for fr, D in zip(frames, Ds):
             fr.data = D.copy()
         cad0 = CAD.Cadence(frames)
@@ -256,33 +258,35 @@ def job_times(nfr, T):
         leaf = core.run_single(run, pre)
     sl, starts, natural, cons, obs_range, tch = leaf.value
     dtv = lift(dt)
+    off = [sum(Ts[:m]) for m in range(nfr + 1)]
     dis = [lift(s) != slew.t for s in sl]
     if len(sl) != nfr - 1:
         dis.append(z3.BoolVal(True))
     dis.append(lift(starts[0]) != taus[0].t)
     for m in range(1, nfr):
-        dis.append(lift(starts[m]) != taus[0].t + m * (T * dtv + slew.t))
+        dis.append(lift(starts[m]) != taus[0].t + off[m] * dtv + m * slew.t)
+    pl = dict(fn='times', nfr=nfr, T=list(Ts))
     r, _ = core.check(pre + leaf.side + [z3.Or(*dis)], timeout_ms=60000)
     recs.append(q(tag + ':overwrite->slew', r))
     if r == 'sat':
-        recs.append(cex('C16:overwrite_times', 'overwriting start times does not space frames by exactly t_slew', dict(fn='times', nfr=nfr, T=T), name=tag + ':overwrite->slew'))
-    dis = [lift(natural[m - 1]) != taus[m].t - (taus[m - 1].t + T * dtv) for m in range(1, nfr)]
+        recs.append(cex('C16:overwrite_times', 'overwriting start times does not space frames by exactly t_slew', pl, name=tag + ':overwrite->slew'))
+    dis = [lift(natural[m - 1]) != taus[m].t - (taus[m - 1].t + Ts[m - 1] * dtv) for m in range(1, nfr)]
     if cons is not None:
-        if cons.data.shape != (nfr * T, Fc) or len(cons.ts) != nfr * T:
+        if cons.data.shape != (off[nfr], Fc) or len(cons.ts) != off[nfr]:
             dis.append(z3.BoolVal(True))
         else:
             for m in range(nfr):
-                for i in range(T):
-                    dis.append(lift(cons.ts[m * T + i]) != i * dtv + taus[m].t)
+                for i in range(Ts[m]):
+                    dis.append(lift(cons.ts[off[m] + i]) != i * dtv + taus[m].t)
                     for j in range(Fc):
-                        dis.append(lift(cons.data[m * T + i, j]) != lift(Ds[m][i, j]))
+                        dis.append(lift(cons.data[off[m] + i, j]) != lift(Ds[m][i, j]))
             dis.append(lift(cons.t_start) != taus[0].t)
-    dis.append(lift(obs_range) != lift(starts[-1]) + T * dtv - lift(starts[0]))
-    dis.append(lift(tch) != nfr * T)
+    dis.append(lift(obs_range) != lift(starts[-1]) + Ts[-1] * dtv - lift(starts[0]))
+    dis.append(lift(tch) != off[nfr])
     r, _ = core.check(pre + leaf.side + [z3.Or(*dis)] if dis else [z3.BoolVal(False)], timeout_ms=60000)
     recs.append(q(tag + ':slew/consolidate/aggregates', r))
     if r == 'sat':
-        recs.append(cex('C16:consolidate', 'natural slew times / consolidation / aggregates differ from the member frames', dict(fn='times', nfr=nfr, T=T), name=tag + ':slew/consolidate/aggregates'))
+        recs.append(cex('C16:consolidate', 'natural slew times / consolidation / aggregates differ from the member frames', pl, name=tag + ':slew/consolidate/aggregates'))
     return recs
 
 
@@ -354,36 +358,39 @@ def replay_exact(p):
 
 def replay_times(p):
     import setigen as stg
-    nfr, T = p['nfr'], p['T']
-    frames = [stg.Frame(fchans=3, tchans=T, df=2.0, dt=4.0, fch1=4096.0, t_start=100.0 * m * m, seed=m) for m in range(nfr)]
+    nfr = p['nfr']
+    Ts = list(p['T']) if isinstance(p['T'], (list, tuple)) else [p['T']] * nfr
+    off = [sum(Ts[:m]) for m in range(nfr + 1)]
+    t0s = [100.0 * m * m for m in range(nfr)]
+    frames = [stg.Frame(fchans=3, tchans=Ts[m], df=2.0, dt=4.0, fch1=4096.0, t_start=t0s[m], seed=m) for m in range(nfr)]
     for m, fr in enumerate(frames):
-        fr.data = np.full((T, 3), float(m))
+        fr.data = np.full((Ts[m], 3), float(m))
     cad0 = stg.Cadence(frames)
     nat = cad0.slew_times
     cons = cad0.consolidate()
     msgs = []
-    if not np.allclose(nat, [100.0 * m * m - (100.0 * (m - 1) ** 2 + 4.0 * T) for m in range(1, nfr)]):
+    if not np.allclose(nat, [t0s[m] - (t0s[m - 1] + 4.0 * Ts[m - 1]) for m in range(1, nfr)]):
         msgs.append('natural slew times')
-    if cons.data.shape != (nfr * T, 3) or not np.array_equal(cons.data[:, 0], np.repeat(np.arange(nfr, dtype=float), T)):
+    if cons.data.shape != (off[nfr], 3) or not np.array_equal(cons.data[:, 0], np.concatenate([np.full(Ts[m], float(m)) for m in range(nfr)])):
         msgs.append('consolidated data')
-    if not np.allclose(cons.ts, np.concatenate([np.arange(T) * 4.0 + 100.0 * m * m for m in range(nfr)])):
+    if not np.allclose(cons.ts, np.concatenate([np.arange(Ts[m]) * 4.0 + t0s[m] for m in range(nfr)])):
         msgs.append('consolidated ts')
-    if not np.isclose(cad0.obs_range, frames[-1].t_start + 4.0 * T - frames[0].t_start) or cad0.tchans != nfr * T:
+    if not np.isclose(cad0.obs_range, frames[-1].t_start + 4.0 * Ts[-1] - frames[0].t_start) or cad0.tchans != off[nfr]:
         msgs.append(f'obs_range {cad0.obs_range} / tchans {cad0.tchans}')
     # frames whose start time is assigned after construction (as overwrite_times itself does)
-    late = [stg.Frame(fchans=3, tchans=T, df=2.0, dt=4.0, fch1=4096.0, t_start=5.0, seed=m) for m in range(nfr)]
+    late = [stg.Frame(fchans=3, tchans=Ts[m], df=2.0, dt=4.0, fch1=4096.0, t_start=5.0, seed=m) for m in range(nfr)]
     for m, fr in enumerate(late):
-        fr.t_start = 100.0 * m * m
-    if not np.allclose(stg.Cadence(late).slew_times, [100.0 * m * m - (100.0 * (m - 1) ** 2 + 4.0 * T) for m in range(1, nfr)]):
+        fr.t_start = t0s[m]
+    if not np.allclose(stg.Cadence(late).slew_times, [t0s[m] - (t0s[m - 1] + 4.0 * Ts[m - 1]) for m in range(1, nfr)]):
         msgs.append(f'natural slew times of frames whose start time was reassigned: {stg.Cadence(late).slew_times}')
     cad = stg.Cadence(frames, t_slew=7.5, t_overwrite=True)
     if not np.allclose(cad.slew_times, 7.5):
         msgs.append(f'slew times after overwrite {cad.slew_times}')
-    want = [frames[0].t_start + m * (4.0 * T + 7.5) for m in range(nfr)]
+    want = [frames[0].t_start + 4.0 * off[m] + 7.5 * m for m in range(nfr)]
     if not np.allclose([fr.t_start for fr in frames], want, rtol=1e-12):
-        msgs.append(f'start times after overwrite {[fr.t_start for fr in frames]}, expected {want}')
-    if not np.isclose(cad.obs_range, want[-1] + 4.0 * T - want[0]):
-        msgs.append(f'obs_range after overwrite {cad.obs_range}, expected {want[-1] + 4.0 * T - want[0]}')
+        msgs.append(f'start times after overwrite {[fr.t_start for fr in frames]}, expected {want} (frame lengths {Ts})')
+    if not np.isclose(cad.obs_range, want[-1] + 4.0 * Ts[-1] - want[0]):
+        msgs.append(f'obs_range after overwrite {cad.obs_range}, expected {want[-1] + 4.0 * Ts[-1] - want[0]}')
     return bool(msgs), '; '.join(msgs) or 'ok'
 
 
@@ -422,6 +429,8 @@ def main():
                 jobs.append(('job_fault', (nfr, k, which)))
         jobs.append(('job_exact_restore', (nfr,)))
         jobs.append(('job_times', (nfr, 2)))
+        if nfr >= 2:
+            jobs.append(('job_times', (nfr, (2, 1, 3, 2)[:nfr])))
     for sel in (('slice', 0, None, 2), ('slice', 1, None, 2), ('index', (0, 2)), ('index', (2, 0)), ('slice', 1, 3, None)):
         jobs.append(('job_overwrite_select', (3 if not ck.thorough else 4, sel)))
     for sel in (('slice', 1, 3), ('slice', 0, 2), ('index', (0, 2)), ('index', (2, 1))):
